@@ -6,7 +6,9 @@ import (
 	"sync"
 	"sync/atomic"
 	"testing"
+	"time"
 
+	"github.com/0xReLogic/Helios/internal/loadbalancer"
 	"github.com/0xReLogic/Helios/verifharness/lab"
 	"pgregory.net/rapid"
 )
@@ -17,7 +19,7 @@ func drawPool(rt *rapid.T, strategy string, maxN int) *pool {
 	if rapid.IntRange(0, 24).Draw(rt, "large_pool") == 0 {
 		n = rapid.SampledFrom([]int{63, 64, 65, 66, 100, 130}).Draw(rt, "n_large") // pool sizes around and beyond a machine word of backends
 	}
-	p, err := newPool(strategy, n)
+	p, err := newPoolWith(strategy, n, poolOpts{Naming: genNaming(rt)})
 	if err != nil {
 		rt.Fatalf("harness: %v", err)
 	}
@@ -75,7 +77,7 @@ func TestC06Affinity(t *testing.T) {
 	sub := lab.Sub("affinity", "rapid: strategy in {ip_hash, ip_hash_consistent}, pool 1..16 with a drawn stable ejected subset, a client address (IPv4, IPv6 in 4 spellings, "+
 		"IPv4-mapped, junk tokens, 1..64 arbitrary field-value bytes, empty) and 2..6 requests attributed to it by the documented rule (X-Forwarded-For single / list with the "+
 		"separator directly after the first element / X-Real-IP / RemoteAddr host) that differ in method, path, source port, peer, unrelated and lower-priority headers, later "+
-		"list members, extra header lines; 0..3 requests of other clients in between; before each later request of the group, one time in four, the operator re-selects the strategy (lb.SetStrategy = POST /v1/strategy: the active one again, or any other of the five and back with 0..2 requests of other clients while away - members and ejections untouched); in one case of three the backends carry in-flight counts from {0,1,99,100,101,500} that change between the requests of the group (the client's own backend included); through lb.NextBackend or lb.ServeHTTP(L1); oracle: same backend for the whole group and "+
+		"list members, extra header lines; 0..3 requests of other clients in between; before each later request of the group, one time in four, the operator re-selects the strategy (lb.SetStrategy = POST /v1/strategy: the active one again, or any other of the five and back with 0..2 requests of other clients while away - members and ejections untouched); in one case of three the backends carry in-flight counts from {0,1,99,100,101,500} that change between the requests of the group (the client's own backend included); backends named by a drawn scheme (b0.., web-1..web-10.., zero-padded, count-down, host:port, tiers, free names in a drawn order - in most pools the order of arrival is not the byte-wise order of the names); before each later request of the group, 0..2 read-only admin / monitoring calls on the same balancer (admin GET /v1/health, /v1/backends, /v1/metrics, GET on the POST-only endpoints, metrics and health handlers, lb.ListBackends, lb.IsBackendHealthy on members that are not ejected, GetMetrics, connection gauges): they only look, the eligible set is unchanged; one later request in five is routed while somebody else is at the state of a backend (the client's own or a drawn member): its lock held by a reader, by a writer that confirms the health flag as a passing probe does, or by a reader with a writer queued behind it - nobody's health changes; through lb.NextBackend or lb.ServeHTTP(L1); oracle: same backend for the whole group and "+
 		"every choice is an eligible member; non-trivial = >=2 eligible backends and >=1 pair differing in an irrelevant dimension")
 	sub.NontrivialFloor(0.6)
 	for _, l := range []string{"src-xff-single", "src-xff-list", "src-x-real-ip", "src-remoteaddr", "differ-source-port", "differ-path", "differ-other-headers", "differ-carrier"} {
@@ -87,6 +89,9 @@ func TestC06Affinity(t *testing.T) {
 	sub.Floor("ejected-present", 0.15)
 	sub.Floor("inflight-load-changing", 0.25)
 	sub.Floor("strategy-reselected-between-requests", 0.3)
+	sub.Floor("observer-between-requests", 0.5)
+	sub.Floor("listing-between-requests-of-unsorted-pool", 0.15)
+	sub.Floor("routed-while-backend-lock-held", 0.3)
 	lab.Check(t, sub, 5000, 200000, func(rt *rapid.T) {
 		strategy := rapid.SampledFrom(hashStrategies).Draw(rt, "strategy")
 		p := drawPool(rt, strategy, 16)
@@ -151,7 +156,22 @@ func TestC06Affinity(t *testing.T) {
 		// clients while it is away. Members and ejections are untouched, so the eligible set is unchanged and
 		// the group's requests, all sent under the case's strategy, still belong to one backend.
 		var switches []string
+		// read-only admin / monitoring calls between two requests of the group
+		var observed []string
+		listedUnsorted := false
+		// whose lock was held by somebody else while request #i was routed
+		var held []string
 		for i, s := range group {
+			if i > 0 && viol == "" {
+				kinds, wasUnsorted := genObservers(rt), p.unsortedNow()
+				for _, k := range kinds {
+					p.observe(k, p.ejected)
+					observed = append(observed, fmt.Sprintf("%d:%s", i, observerNames[k]))
+				}
+				if hasListing(kinds) && wasUnsorted {
+					listedUnsorted = true
+				}
+			}
 			if i > 0 && viol == "" {
 				switch k := rapid.IntRange(0, 7).Draw(rt, "switch"); k {
 				case 0:
@@ -193,15 +213,26 @@ func TestC06Affinity(t *testing.T) {
 			if viol != "" {
 				break
 			}
-			name, _ := p.pick(s, via)
+			var name string
+			if i > 0 && rapid.IntRange(0, 4).Draw(rt, "contended") == 0 {
+				target := picks[0]
+				if rapid.Bool().Draw(rt, "hold_other") {
+					target = rapid.SampledFrom(p.names).Draw(rt, "hold_which")
+				}
+				hold := rapid.SampledFrom(lockHolds).Draw(rt, "hold")
+				held = append(held, fmt.Sprintf("%d:%s@%s", i, hold, target))
+				name, _ = p.pickContended(s, via, target, hold)
+			} else {
+				name, _ = p.pick(s, via)
+			}
 			picks = append(picks, name)
 			if v := p.valid(name); v != "" {
-				viol = fmt.Sprintf("request #%d %+v: %s", i, s, v)
+				viol = fmt.Sprintf("request #%d %+v: %s (backend locks held by others while request #i was routed: %v)", i, s, v, held)
 				break
 			}
 			if name != picks[0] {
-				viol = fmt.Sprintf("requests #0 %+v and #%d %+v are both attributed to client %q but went to %s and %s (eligible set unchanged: members %v, ejected %v; strategy re-selections before request #i: %v)",
-					group[0], i, s, addr, picks[0], name, p.names, keysOf(p.ejected), switches)
+				viol = fmt.Sprintf("client %q: request #0 went to %s, request #%d went to %s, although the eligible set is unchanged (members in order of arrival %v, ejected %v; strategy re-selections before request #i: %v; read-only admin/monitoring calls before request #i: %v; backend locks held by others (health unchanged) while request #i was routed: %v); both requests are attributed to that client: #0 %+v, #%d %+v",
+					addr, picks[0], i, name, p.names, keysOf(p.ejected), switches, observed, held, group[0], i, s)
 				break
 			}
 		}
@@ -224,10 +255,23 @@ func TestC06Affinity(t *testing.T) {
 		if len(switches) > 0 {
 			labels = append(labels, "strategy-reselected-between-requests")
 		}
-		sub.Case(map[string]any{"strategy": strategy, "n": len(p.names), "ejected": keysOf(p.ejected), "addr": addr, "group": group, "others": len(others), "via": via, "switches": switches},
+		labels = append(labels, "names-"+p.naming.Scheme)
+		if p.unsortedNow() {
+			labels = append(labels, "arrival-order-is-not-name-order")
+		}
+		if len(observed) > 0 {
+			labels = append(labels, "observer-between-requests")
+		}
+		if listedUnsorted {
+			labels = append(labels, "listing-between-requests-of-unsorted-pool")
+		}
+		if len(held) > 0 {
+			labels = append(labels, "routed-while-backend-lock-held")
+		}
+		sub.Case(map[string]any{"strategy": strategy, "n": len(p.names), "naming": p.naming, "ejected": keysOf(p.ejected), "addr": addr, "group": group, "others": len(others), "via": via, "switches": switches, "observers": observed, "held": held},
 			nEligible >= 2 && len(dims) > 0, labels...)
 		if viol != "" {
-			rt.Fatalf("%s n=%d via=%s: %s", strategy, len(p.names), via, viol)
+			rt.Fatalf("%s", note("affinity", "%s n=%d via=%s: %s", strategy, len(p.names), via, viol))
 		}
 	})
 }
@@ -235,9 +279,15 @@ func TestC06Affinity(t *testing.T) {
 // TestC06AffinityConcurrent: the same claim under real concurrent traffic.
 func TestC06AffinityConcurrent(t *testing.T) {
 	sub := lab.Sub("affinity-concurrent", "rapid-drawn workload run on real goroutines: pool 2..16 (stable ejected subset), 2..12 clients with 2..5 request variants each, "+
-		"G in 2..32 goroutines released together, each sending every variant of every client in its own drawn order, 3 rounds; through lb.ServeHTTP(L1) or lb.NextBackend; "+
+		"one sequential request per client first, then G in 2..32 goroutines released together, each sending every variant of every client in its own drawn order, 3 rounds; through lb.ServeHTTP(L1) or lb.NextBackend; "+
+		"backends named by a drawn scheme (see affinity); beside the clients, released with them and running until they are done (at most 4 passes / 200 rounds), 0..2 goroutines that only look at the balancer (each a drawn sequence of 3..10 "+
+		"read-only admin / monitoring calls, see affinity: they take the pool's and the backends' locks as readers) and, when some backend is ejected, in half of the cases one goroutine that ejects the "+
+		"already ejected backends again for an hour (it takes their locks as a writer; nobody's health changes), and in one case of three one goroutine that goes round the backends taking each one's lock for a moment "+
+		"(as a writer that confirms the health flag the way a passing probe does, or as a reader) - nobody's health changes; "+
 		"oracle: every request of a client reached one and the same eligible backend; non-trivial = >=2 eligible backends")
 	sub.NontrivialFloor(0.7)
+	sub.Floor("observers-beside-clients", 0.5)
+	sub.Floor("listing-beside-clients-of-unsorted-pool", 0.25)
 	lab.Check(t, sub, 300, 6000, func(rt *rapid.T) {
 		strategy := rapid.SampledFrom(hashStrategies).Draw(rt, "strategy")
 		p := drawPool(rt, strategy, 16)
@@ -267,13 +317,76 @@ func TestC06AffinityConcurrent(t *testing.T) {
 		for g := range orders {
 			orders[g] = rapid.Permutation(idx).Draw(rt, "order")
 		}
+		// bystanders: goroutines that look at the balancer (read-only calls) while the clients are served, and
+		// one that renews the ejection of backends that are ejected anyway. None of them changes the eligible set.
+		var lookers [][]int
+		for b, m := 0, rapid.SampledFrom([]int{0, 1, 1, 2}).Draw(rt, "lookers"); b < m; b++ {
+			lookers = append(lookers, rapid.SliceOfN(rapid.SampledFrom(observerTable), 3, 10).Draw(rt, "looks"))
+		}
+		renew := len(p.ejected) > 0 && rapid.Bool().Draw(rt, "renew_ejections")
+		locker := rapid.SampledFrom([]string{"", "", "", "", "writer", "reader"}).Draw(rt, "lock_taker")
+		wasUnsorted := p.unsortedNow()
+		listing := false
+		for _, l := range lookers {
+			listing = listing || hasListing(l)
+		}
+		p.adminMux()
+		ejectedNow := map[string]bool{}
+		for k := range p.ejected {
+			ejectedNow[k] = true
+		}
+		var done int32
+		var bwg sync.WaitGroup
 		type obs struct {
 			item int
 			name string
 		}
-		results := make([][]obs, G)
+		results := make([][]obs, G+1)
+		// one request of every client before anything runs side by side: the backend that client is on
+		for i, it := range items {
+			if i == 0 || items[i-1].client != it.client {
+				name, _ := p.pick(it.spec, via)
+				results[G] = append(results[G], obs{i, name})
+			}
+		}
 		var ready, goFlag int32
 		var wg sync.WaitGroup
+		for _, l := range lookers {
+			bwg.Add(1)
+			go func(kinds []int) {
+				defer bwg.Done()
+				for atomic.LoadInt32(&goFlag) == 0 {
+					runtime.Gosched()
+				}
+				for pass := 0; pass < 4 && atomic.LoadInt32(&done) == 0; pass++ {
+					for _, k := range kinds {
+						p.observe(k, ejectedNow)
+						runtime.Gosched()
+					}
+				}
+			}(l)
+		}
+		if renew {
+			var victims []*loadbalancer.Backend
+			for _, b := range p.lb.VerifBackends() {
+				if ejectedNow[b.Name] {
+					victims = append(victims, b)
+				}
+			}
+			bwg.Add(1)
+			go func() {
+				defer bwg.Done()
+				for atomic.LoadInt32(&goFlag) == 0 {
+					runtime.Gosched()
+				}
+				for pass := 0; pass < 200 && atomic.LoadInt32(&done) == 0; pass++ {
+					for _, b := range victims {
+						p.lb.MarkBackendUnhealthy(b, time.Hour)
+					}
+					runtime.Gosched()
+				}
+			}()
+		}
 		for g := 0; g < G; g++ {
 			wg.Add(1)
 			go func(g int) {
@@ -293,23 +406,71 @@ func TestC06AffinityConcurrent(t *testing.T) {
 		for atomic.LoadInt32(&ready) < int32(G) {
 			runtime.Gosched()
 		}
+		if locker != "" {
+			all := p.lb.VerifBackends()
+			bwg.Add(1)
+			go func() {
+				defer bwg.Done()
+				for atomic.LoadInt32(&goFlag) == 0 {
+					runtime.Gosched()
+				}
+				for pass := 0; pass < 200 && atomic.LoadInt32(&done) == 0; pass++ {
+					for _, b := range all {
+						if locker == "writer" {
+							b.Mutex.Lock()
+							confirmed := b.IsHealthy
+							b.IsHealthy = confirmed
+							b.Mutex.Unlock()
+						} else {
+							b.Mutex.RLock()
+							_ = b.IsHealthy
+							b.Mutex.RUnlock()
+						}
+						runtime.Gosched()
+					}
+				}
+			}()
+		}
 		atomic.StoreInt32(&goFlag, 1)
 		wg.Wait()
+		atomic.StoreInt32(&done, 1)
+		bwg.Wait()
 		nEligible := len(p.names) - len(p.ejected)
-		sub.Case(map[string]any{"strategy": strategy, "n": len(p.names), "ejected": keysOf(p.ejected), "clients": addrs, "requests": len(items), "G": G, "via": via},
-			nEligible >= 2, fmt.Sprintf("G%d", G), "via-"+via, strategy)
+		labels := []string{fmt.Sprintf("G%d", G), "via-" + via, strategy, "names-" + p.naming.Scheme}
+		var looks [][]string
+		for _, l := range lookers {
+			looks = append(looks, observerList(l))
+		}
+		if len(lookers) > 0 {
+			labels = append(labels, "observers-beside-clients")
+		}
+		if listing && wasUnsorted {
+			labels = append(labels, "listing-beside-clients-of-unsorted-pool")
+		}
+		if renew {
+			labels = append(labels, "ejections-renewed-beside-clients")
+		}
+		if locker != "" {
+			labels = append(labels, "backend-locks-taken-beside-clients-as-"+locker)
+		}
+		beside := fmt.Sprintf("beside the clients: read-only admin/monitoring goroutines %v, ejections renewed: %v, a goroutine taking every backend's lock for a moment without changing its health: %q; members in order of arrival %v, ejected %v", looks, renew, locker, p.names, keysOf(p.ejected))
+		sub.Case(map[string]any{"strategy": strategy, "n": len(p.names), "naming": p.naming, "ejected": keysOf(p.ejected), "clients": addrs, "requests": len(items), "G": G, "via": via, "lookers": looks, "renew": renew, "lock_taker": locker},
+			nEligible >= 2, labels...)
 		first := map[int]obs{}
+		for _, o := range results[G] { // the sequential requests sent before the goroutines were released
+			first[items[o.item].client] = o
+		}
 		for g := range results {
 			for _, o := range results[g] {
 				if v := p.valid(o.name); v != "" {
-					rt.Fatalf("%s n=%d G=%d via=%s: request %+v: %s", strategy, len(p.names), G, via, items[o.item].spec, v)
+					rt.Fatalf("%s", note("affinity-concurrent", "%s n=%d G=%d via=%s: request %+v: %s (%s)", strategy, len(p.names), G, via, items[o.item].spec, v, beside))
 				}
 				c := items[o.item].client
 				if f, ok := first[c]; !ok {
 					first[c] = o
 				} else if f.name != o.name {
-					rt.Fatalf("%s n=%d G=%d via=%s: client %q: request %+v went to %s, request %+v went to %s under concurrent traffic (eligible set unchanged)",
-						strategy, len(p.names), G, via, addrs[c], items[f.item].spec, f.name, items[o.item].spec, o.name)
+					rt.Fatalf("%s", note("affinity-concurrent", "%s n=%d G=%d via=%s: client %q went to %s and to %s under concurrent traffic although the eligible set is unchanged (%s); the two requests: %+v, %+v",
+						strategy, len(p.names), G, via, addrs[c], f.name, o.name, beside, items[f.item].spec, items[o.item].spec))
 				}
 			}
 		}
